@@ -371,12 +371,12 @@ int main(int argc, char** argv) {
         });
     }
     if (T) {
-        // triples with at most 4 failing phases in total
-        vf::info("triples.bound", vf::fmt("all ordered triples of test kinds with <= 4 non-complete phases in total (of %ld^3), registry", K3));
+        // triples with at most 6 failing phases in total (deviation bound)
+        vf::info("triples.bound", vf::fmt("all ordered triples of test kinds with <= 6 non-complete phases in total (of %ld^3), registry", K3));
         vf::section_index("triples", K3 * K3 * K3, [&](long idx) {
             vf::Radix r(idx); Program p; int bad = 0;
             for (int i = 0; i < 3; i++) { TestSpec t{}; kind_from(r.take(K3), t.kind); bad += (t.kind[0] != 0) + (t.kind[1] != 0) + (t.kind[2] != 0); p.tests.push_back(t); }
-            if (bad > 4) { vf::count("skipped_over_deviation_bound"); return; }
+            if (bad > 6) { vf::count("skipped_over_deviation_bound"); return; }
             vf::count("executed");
             run_program(p, 1, false);
         });
